@@ -15,7 +15,7 @@ LEVEL_TEXT = ("Static structural proof of necessary conditions: (R16.1) the thre
               "and the dataset result; (R16.4) the command-line status is non-zero iff the unmodified validate result "
               "is non-empty; (R16.5) applicable sidecars are collected root->leaf and merged forward with later-wins. "
               "The applicability test on entities and equality with per-file validation are NOT decided.")
-LEVEL_EXTRA = "Added after the seeded evaluation: (R16.2) both directory walkers apply the same exclusion test. (R16.6) a data file's sidecar is built from the whole list of sidecars applicable to it. (R16.7) no entity comparison in is_sidecar_for defaults a missing entity to the expected value. R16.1 also reports a file-selecting constructor parameter that is stored in a rewritten form. (R16.8) every sidecar of the group reaches the validator and a data file is read with the merged sidecar contents."
+LEVEL_EXTRA = "Added after the seeded evaluation: (R16.2) both directory walkers apply the same exclusion test. (R16.6) a data file's sidecar is built from the whole list of sidecars applicable to it. (R16.7) no entity comparison in is_sidecar_for defaults a missing entity to the expected value. R16.1 also reports a file-selecting constructor parameter that is stored in a rewritten form. (R16.8) every sidecar of the group reaches the validator and a data file is read with the merged sidecar contents. (R16.9) a parameter is handed on to every repository callee that takes a parameter of the same name (11 frozen exceptions package-wide)."
 
 
 def bind(call, callee, skip_self=False):
@@ -501,6 +501,11 @@ def run(ctx):
                       "file applies and what the shallower ones supply (definitions, other columns) is lost" % norm(a),
                       desc="TabularInput gets the merged sidecar contents")
     ctx.floor("R16.8", "TabularInput constructions with a sidecar in set_contents", n_ti, 1)
+
+    # ---------------- R16.9: parameters are handed on to same-named parameters of repository callees
+    from sa.forward import check_forwarding
+    nfw = check_forwarding(ctx, "R16.9", [f for f in prog.functions.values() if f.module.name.startswith(('hed.tools.bids', 'hed.scripts'))], 'e.g. the warnings switch, extra definitions, excluded directories')
+    ctx.floor("R16.9", "same-named parameter sites", nfw, 1)
 
 
 def _reversal_ops(fnode):
